@@ -256,7 +256,7 @@ def _det(M):
     return tot
 
 
-REFS = {'eye': lambda N: np.eye(N), 'skew': lambda N: np.array([[2.0, 1.0, 0.0], [0.0, 1.0, 1.0], [1.0, 0.0, 3.0]])[:N, :N]}
+REFS = {'eye': lambda N: np.eye(N), 'tri': lambda N: np.array([[1.0, 1.0, 0.0], [0.0, 1.0, 0.0], [0.0, 0.0, 1.0]])[:N, :N], 'skew': lambda N: np.array([[2.0, 1.0, 0.0], [0.0, 1.0, 1.0], [1.0, 0.0, 3.0]])[:N, :N]}
 
 
 def h_sortvec(cx, N, T, ts, pattern, ref='sym'):
@@ -342,8 +342,9 @@ def jobs(tier, seed):
     add('gevp', N=2, T=3, pattern=[True, True, True], t0=0, sort=None, method='cholesky', ts=1)
     add('sortvec', N=2, T=3, ts=1, pattern=[True, True, True], ref='skew')
     add('sortvec', N=2, T=4, ts=3, pattern=[True, False, True, True], ref='eye')
-    for p in (dict(N=3, T=3, ts=1, pattern=[False, True, True], ref='eye'), dict(N=3, T=2, ts=0, pattern=[True, True], ref='skew')):
-        J.append(dict(harness='sortvec', params=p, opts=dict(maxpaths=400)))
+    J.append(dict(harness='sortvec', params=dict(N=3, T=3, ts=1, pattern=[False, True, True], ref='eye'), opts=dict(maxpaths=400)))
+    if tier == 'thorough':
+        J.append(dict(harness='sortvec', params=dict(N=3, T=2, ts=0, pattern=[True, True], ref='tri'), opts=dict(maxpaths=400, job_timeout=1200)))
     if tier == 'thorough':
         add('gevp', N=2, T=3, pattern=[True, True, True], t0=1, sort='Eigenvalue', method='cholesky')
         add('gevp', N=2, T=4, pattern=[True, True, True, True], t0=0, sort='Eigenvalue', method='eigh')
@@ -375,10 +376,12 @@ CANARIES = [
 META = dict(
     explanation='C16 (wiring only): Corr.GEVP (sort None / "Eigenvalue"), _GEVP_solver (eigh and cholesky methods) and matrix_symmetric run on symbolic matrix entries behind LAPACK contracts '
                 '(eigh: A v = w B v with ascending w and B-orthonormal v on the lower-triangle-defined matrices; cholesky: L L^T = A; inv: X L = L X = 1). Decided: every returned vector satisfies '
-                'G(t) v = lambda G(t0) v for the symmetrised G with the eigenvalue the contract associates to it, state index s <-> s-th largest eigenvalue, undefined timeslices / t <= t0 give None, invalid requests are rejected.',
-    bounds='N = 2 (N = 3 and the Cholesky method over several timeslices exceed 10 minutes per query in z3 and are not run), T = 3..4, t0 in {0,1}, undefined timeslices; methods eigh and cholesky (cholesky for sort=None at N=2).',
-    outside=['recovery of exact exponentials, agreement of the two solvers up to normalisation, eigenvector sorting over time ("Eigenvector"), pruning and the matrix-pencil method: statements about LAPACK eigen/SVD output on specific matrices - not applicable to this technique',
+                'G(t) v = lambda G(t0) v for the symmetrised G with the eigenvalue the contract associates to it, state index s <-> s-th largest eigenvalue, undefined timeslices / t <= t0 give None, invalid requests are rejected. '
+                'Eigenvector sorting (_sort_vectors, arXiv:2004.10472): on symbolic vectors (N = 2, 3; np.linalg.det replaced by its Leibniz polynomial) the returned order maximises, on every timeslice, the product of '
+                '|det(reference with row s replaced by the vector placed at s)| over all N! orders; the vectors are returned untouched, reference and undefined timeslices are passed through. Corr.prune = V^T G_sym V.',
+    bounds='N = 2 (N = 3 and the Cholesky method over several timeslices exceed 10 minutes per query in z3 and are not run), T = 3..4, t0 in {0,1}, undefined timeslices; methods eigh and cholesky (cholesky for sort=None at N=2). Eigenvector sorting: N = 2 and 3, T = 2..4, concrete reference vectors (identity, a non-orthogonal matrix), symbolic vectors on the other timeslices (a symbolic reference at N = 2 and a non-orthogonal reference at N = 3 do not finish within 5 minutes).',
+    outside=['recovery of exact exponentials, agreement of the two solvers up to normalisation and the matrix-pencil method: statements about LAPACK eigen/SVD output on specific matrices - not applicable to this technique', 'that the overlap-maximising order follows the physical state (a statement about the spectra, not about the code)',
              'vector_obs=True (error propagation through eigh/cholesky: LAPACK + autograd vjps)', 'is_matrix_symmetric (hash based) is forced to the general branch'],
-    stubs=['scipy.linalg.eigh / np.linalg.eigh / cholesky / inv -> contracts', 'numpy shim'],
-    assumptions=['G(t0) positive definite (cholesky contract)'],
+    stubs=['scipy.linalg.eigh / np.linalg.eigh / cholesky / inv -> contracts', 'np.linalg.det -> Leibniz formula', 'numpy shim'],
+    assumptions=['G(t0) positive definite (cholesky contract)', 'sorting: vectors of one timeslice linearly independent'],
 )
